@@ -16,6 +16,9 @@ ls -d /verif/seeded/C??-${SEEDED_GLOB:-?} | xargs -P "$P" -I{} sh -c '
 import json, sys
 d, prop, rc, sig = sys.argv[1:5]
 m = json.load(open(d + "/meta.json"))
+if m.get("valid_against"):
+    print(d.split("/")[-1], "is valid against", m["valid_against"], "- own-check record kept, HEAD result:", rc)
+    sys.exit(0)
 m["own_check"] = {"check": prop, "tier": "quick", "exit": int(rc), "first_signature": sig.strip()}
 if int(rc) == 1 and prop not in m.get("caught_by", []):
     m["caught_by"] = sorted(set(m.get("caught_by", [])) | {prop})
